@@ -461,5 +461,5 @@ func runC17(c C17Case) *Result {
 func rapidBoolFrom(a, b int) bool { return (a+b)%2 == 0 }
 
 func TestC17(t *testing.T) {
-	runSpec(t, Spec[C17Case]{ID: "C17", Gen: genC17, Run: runC17})
+	runSpec(t, Spec[C17Case]{ID: "C17", Gen: genC17, Run: runC17, Pre: preScaleC17})
 }
